@@ -16,6 +16,7 @@ type bitStream interface {
 	drawBits(n int) uint64
 	beginGroup(label string, standalone bool) int
 	endGroup(i int, discard bool)
+	keepGroup(i int)
 }
 
 func baseSeed() uint64 {
@@ -131,6 +132,19 @@ func (rec *recordedBits) endGroup(i int, discard bool) {
 
 	rec.groups[i].end = len(rec.data)
 	rec.groups[i].discard = discard
+}
+
+// keepGroup makes sure that nothing recorded since the beginning of (still open) group i is pruned.
+func (rec *recordedBits) keepGroup(i int) {
+	if !rec.persist {
+		return
+	}
+
+	for j := i; j < len(rec.groups); j++ {
+		if rec.groups[j].begin != rec.groups[j].end {
+			rec.groups[j].discard = false
+		}
+	}
 }
 
 func (rec *recordedBits) prune() {
